@@ -5,6 +5,7 @@
 # instrumented tree in pass-through mode. Exit 0 ok, 1 self-test failed, 2 build trouble.
 set -u
 VERIF="$(cd "$(dirname "$0")" && pwd)"
+REPO="${VERIF_REPO:-/repo}"
 SCR="${VERIF_SCRATCH:-/var/tmp/verif-scratch}/selftest-$$"
 N=64; [ "${1:-}" = "--quick" ] && N=16
 export GOFLAGS=-mod=mod GOPROXY=off GOSUMDB=off GOTOOLCHAIN=local PATH=/opt/veriftools/go1.26.8/bin:$PATH
@@ -34,7 +35,7 @@ done
 if [ "${1:-}" != "--quick" ]; then
   # pass-through validation: repository tests on the instrumented tree (test files get import substitution only)
   PT="$SCR/pt"; mkdir -p "$PT/otter"
-  (cd /repo && git ls-files -z | grep -zv '^cmd/\|^benchmarks/\|^plugin/\|^docs/' | rsync -a --from0 --files-from=- /repo/ "$PT/otter/")
+  (cd "$REPO" && git ls-files -z | grep -zv '^cmd/\|^benchmarks/\|^plugin/\|^docs/' | rsync -a --from0 --files-from=- "$REPO/" "$PT/otter/")
   cp -r "$VERIF/sim" "$PT/verifsim"
   (cd "$PT/otter" && printf '\nrequire verifsim v0.0.0\n\nreplace verifsim => ../verifsim\n' >> go.mod && "$VERIF/bin/simrewrite" -dir . -tests > /dev/null) || { echo "selftest: instrumenting with tests failed"; rm -rf "$SCR"; exit 2; }
   if (cd "$PT/otter" && GOGC=off go test -vet=off -count=1 -timeout 300s ./... > "$SCR/pt.log" 2>&1); then
